@@ -18,4 +18,21 @@ def scenarios(seed, tier):
 
 
 def run_case(case, drv):
-    return SC.run_case(case, drv)
+    r = SC.run_case(case, drv)
+    # the cost vector alone (costs_only, used for cost samples) is the cost vector of the full set-up - the scale variable's
+    # fixed costs included
+    try:
+        import numpy as np
+        from .. import scen, impl
+        portf, tg, prices, nodes = scen.build(case['scn'])
+        with impl.Quiet():
+            op = portf.setup_optim_problem(prices, tg)
+            c_only = portf.setup_optim_problem(prices, tg, costs_only=True)
+        r['evaluated'] = r.get('evaluated', 1) + 1
+        if len(c_only) != len(op.c) or not np.allclose(np.asarray(c_only, dtype=float), np.asarray(op.c, dtype=float), rtol=1e-12, atol=1e-12):
+            j = next((k for k in range(min(len(c_only), len(op.c))) if abs(float(c_only[k]) - float(op.c[k])) > 1e-12 * max(1.0, abs(float(op.c[k])))), None)
+            r['violations'].append({'oracle': 'costs_only', 'detail': 'costs_only vector (%d entries) differs from the cost vector of the full set-up (%d entries)%s' % (
+                len(c_only), len(op.c), '' if j is None else ': entry %d is %.10g vs %.10g' % (j, float(c_only[j]), float(op.c[j]))), 'facts': {'kind': 'costs_only'}})
+    except Exception as e:
+        r.setdefault('features', []).append('costs-only-skip:' + type(e).__name__)
+    return r
